@@ -1,5 +1,6 @@
 import SfVerif.Lemmas.GlueShape
 import SfVerif.Gen.Glue
+import SfVerif.Gen.Abi
 /-! C04 — trampolined imports behave exactly as the public ABI specifies.
     The theorems are about the instruction lists in Gen/Glue.lean, i.e. the code the current
     trampoline source emits (regenerated on every run), for all arguments, both memories, every
@@ -222,6 +223,13 @@ theorem C04_scalar_calls {M : Module} (hM : M ∈ glueModules) {k f : Nat} (he :
             calls := (95 :: name, args.reverse) :: calls } := by
   have hs := (shape_of_export hM he hk).2.2.2.2 hn
   exact renamed_exec host M.funcs f _ _ ps rs fuel (isImport_sound hs) prov guest prov' args results rest locals calls hlen hhost
+
+/-- the five functions with glue are not this file's own choice: they are exactly the functions of
+    the ABI whose C prototype takes a pointer into guest memory (regenerated from the header), so
+    "every other API import" above never carries a guest address -/
+theorem C04_pointer_functions_have_glue :
+    (∀ n ∈ abiPointerFns, n = nmReadStr ∨ n = nmGetProp ∨ n = nmOutStr ∨ n = nmIntern ∨ n = nmLog) ∧
+    (∀ n ∈ [nmReadStr, nmGetProp, nmOutStr, nmIntern, nmLog], n ∈ abiPointerFns) := by decide +kernel
 
 /-- non-vacuity: the family has three modules, the first exports the whole API surface -/
 example : glueModules.length = 8 ∧ (glueModules.head?.map (·.apiExports.length)) = some 19 := by decide +kernel
